@@ -148,6 +148,7 @@ theorem xMkdirs_ok_elems : ∀ (ds : List Bytes) (t t1 : XTree), xMkdirs t ds = 
         · exact ih _ _ hx d hd
       | file x => simp [h0] at hx
       | sym x => simp [h0] at hx
+      | hard x => simp [h0] at hx
       | special => simp [h0] at hx
 
 /-- The `AddEnt:` loop for a registered, not yet connected name `n` whose
@@ -254,17 +255,14 @@ theorem add_member_fresh (fuel : Nat) {fs : FS} {t t1 : XTree} {init : List Byte
     (h : TreeOK [] fs) (hrep : Rep [] fs t)
     (hg : GoodComps (init ++ [c])) (hu : ∀ x ∈ init ++ [c], ValidU x)
     (hfresh : fs.get? (joinSlash (init ++ [c])) = none)
-    (hleaf : LeafIno ino) (hxl : ino.kind = .sym → Contained ino.link)
+    (hleaf : LeafIno ino) (hxl : (ino.kind = .sym ∨ ino.kind = .link) → Contained ino.link)
+    (hlk : ino.kind = .link → (fs.get? ino.link).isSome = true)
     (hx : xMkdirs t (prefixesAux [] true init) = some t1) :
     ∃ fs', add (fuel + 2) fs hl (joinSlash (init ++ [c])) ino u =
         (fs', if u then alDel hl (joinSlash (init ++ [c])) else hl, none) ∧
       TreeOK [] fs' ∧ Rep [] fs' (alSet t1 (joinSlash (init ++ [c])) (inoNode ino)) := by
   have hnc : Contained (joinSlash (init ++ [c])) := contained_joinSlash (by simp) hg hu
   have hnd : joinSlash (init ++ [c]) ≠ dotP := joinSlash_ne_dot (by simp) hg
-  have hnl : ino.kind ≠ .link := by
-    rcases hleaf with ⟨hk, _⟩ | ⟨_, hk, _⟩
-    · simp [hk]
-    · exact hk
   have hleaf' : LeafIno { ino with name := joinSlash (init ++ [c]) } := hleaf
   -- registered, not yet connected
   have h1 := h.pend hnc hfresh (x := { ino with name := joinSlash (init ++ [c]) }) rfl hleaf' hxl
@@ -279,7 +277,11 @@ theorem add_member_fresh (fuel : Nat) {fs : FS} {t t1 : XTree} {init : List Byte
   rw [show fuel + 2 = (fuel + 1) + 1 from rfl, add]
   simp only [again_fresh hfresh]
   have hl1 : (if (u && decide (ino.kind = Kind.link) && (fs.get? ino.link).isNone) = true then
-      alSet hl ino.link ((alGet hl ino.link).getD [] ++ [joinSlash (init ++ [c])]) else hl) = hl := by simp [hnl]
+      alSet hl ino.link ((alGet hl ino.link).getD [] ++ [joinSlash (init ++ [c])]) else hl) = hl := by
+    by_cases hk : ino.kind = .link
+    · have := hlk hk
+      cases hg : fs.get? ino.link <;> simp [hg] at this ⊢
+    · simp [hk]
   simp only [hl1]
   obtain ⟨f, hf⟩ : ∃ f, 2 * (fs.inodes ++ [{ ino with name := joinSlash (init ++ [c]) }]).length + 8 = f + 1 := ⟨_, rfl⟩
   rw [hf]
@@ -382,7 +384,7 @@ theorem add_member_replace (fuel : Nat) {fs : FS} {t : XTree} {init : List Bytes
     have hseti : ({ fs with inodes := fs.inodes.set i { ino with name := joinSlash (init ++ [c]) } } : FS).ino i =
         { ino with name := joinSlash (init ++ [c]) } := ino_set_eq fs _ hil
     have hnone : (fs.ino i).children = none := by
-      rcases h.kinds _ i hi with ⟨hk, _⟩ | ⟨_, _, hc, _⟩
+      rcases h.kinds _ i hi with ⟨hk, _⟩ | ⟨_, hc, _⟩
       · rw [hik] at hk; cases hk
       · exact hc
     constructor
@@ -405,7 +407,7 @@ theorem add_member_replace (fuel : Nat) {fs : FS} {t : XTree} {init : List Bytes
       have hk' : fs.get? k = some t' := hk
       by_cases ht : t' = i
       · subst ht; rw [hseti]
-        exact Or.inr ⟨by simp [hleaf.1], by simp [hleaf.1], hleaf.2.1, fun _ => hleaf.2.2⟩
+        exact Or.inr ⟨by simp [hleaf.1], hleaf.2.1, fun _ => hleaf.2.2⟩
       · rw [hset t' ht]; exact h.kinds k t' hk'
     · intro k t' hk hkd hks
       have hk' : fs.get? k = some t' := hk
